@@ -72,19 +72,26 @@ impl<T: Config> InputQueue<T> {
     /// gap. The caller is responsible for sending these to remote peers so they see consecutive
     /// frame numbers.
     pub(crate) fn set_frame_delay(&mut self, delay: usize) -> Vec<PlayerInput<T::Input>> {
-        let old_delay = self.frame_delay;
         self.frame_delay = delay;
 
-        if delay <= old_delay || self.last_added_frame == NULL_FRAME {
+        if self.last_added_frame == NULL_FRAME {
             return Vec::new();
         }
 
-        let fill_count = delay - old_delay;
-        let fill_start = self.last_added_frame + 1;
+        // The next accepted submission is for user frame `last_user_frame + 1` and has to land on
+        // that frame plus the new delay. Everything between the newest queued frame and that slot
+        // is filled with the newest input right away, so that the queue always holds exactly the
+        // frames reported to the caller - also when the delay is changed again (up or down)
+        // before the next input is added, or while the queue is still ahead after a decrease.
+        let next_slot = self.last_user_frame + 1 + delay as i32;
         let last_input = self.inputs[Self::prev_pos(self.head)];
-        (0..fill_count as i32)
-            .map(|i| PlayerInput::new(fill_start + i, last_input.input))
-            .collect()
+        let mut fills = Vec::new();
+        while self.last_added_frame + 1 < next_slot {
+            let frame = self.last_added_frame + 1;
+            self.add_input_by_frame(last_input, frame);
+            fills.push(PlayerInput::new(frame, last_input.input));
+        }
+        fills
     }
 
     pub(crate) fn reset_prediction(&mut self) {
